@@ -12,14 +12,18 @@ def fnName (o : Obj) : Option Name :=
 
 def fnNamesOf (gs : List Obj) : List Name := gs.filterMap fnName
 
+/-- function objects are never tentative definitions -/
+def FnNotTent (gs : List Obj) : Prop := ∀ o, o ∈ gs → o.isFunction = true → o.isTentative = false
+
 /-- well-formed parser state: one object per function name, no `is_live` flag set -/
 structure WF (gs : List Obj) : Prop where
   nodup : (fnNamesOf gs).Nodup
   noneLive : NoneLive gs
+  fnNotTent : FnNotTent gs
 
 /-- updates that touch neither the identity of an object nor its `is_live` flag -/
 def Keeps (u : Obj → Obj) : Prop :=
-  ∀ o, (u o).isFunction = o.isFunction ∧ (u o).sym = o.sym ∧ (u o).isLive = o.isLive
+  ∀ o, (u o).isFunction = o.isFunction ∧ (u o).sym = o.sym ∧ (u o).isLive = o.isLive ∧ (u o).isTentative = o.isTentative
 
 theorem fnName_keeps {u : Obj → Obj} (hu : Keeps u) (o : Obj) : fnName (u o) = fnName o := by
   unfold fnName
@@ -57,7 +61,15 @@ theorem noneLive_updFirst {u : Obj → Obj} (hu : Keeps u) (p : Obj → Bool) {g
   obtain ⟨o, ho, hh⟩ := mem_updFirst ho'
   rcases hh with rfl | rfl
   · exact h _ ho
-  · rw [(hu o).2.2]; exact h _ ho
+  · rw [(hu o).2.2.1]; exact h _ ho
+
+theorem fnNotTent_updFirst {u : Obj → Obj} (hu : Keeps u) (p : Obj → Bool) {gs : List Obj} (h : FnNotTent gs) :
+    FnNotTent (updFirst p u gs) := by
+  intro o' ho' hf
+  obtain ⟨o, ho, hh⟩ := mem_updFirst ho'
+  rcases hh with rfl | rfl
+  · exact h _ ho hf
+  · rw [(hu o).2.2.2]; rw [(hu o).1] at hf; exact h _ ho hf
 
 theorem mem_fnNamesOf {gs : List Obj} {f : Name} :
     f ∈ fnNamesOf gs ↔ ∃ o, o ∈ gs ∧ o.isFunction = true ∧ o.sym = .named f := by
@@ -112,29 +124,34 @@ inductive Evolves : List Obj → List Obj → Prop where
   | upd {gs gs1} (p : Obj → Bool) (u : Obj → Obj) (hu : Keeps u) : Evolves gs gs1 → Evolves gs (updFirst p u gs1)
   | consData {gs gs1} (o : Obj) (hf : o.isFunction = false) (hl : o.isLive = false) : Evolves gs gs1 → Evolves gs (o :: gs1)
   | consFn {gs gs1} (o : Obj) (f : Name) (hf : o.isFunction = true) (hs : o.sym = .named f) (hl : o.isLive = false)
-      (hnew : findFunc gs1 f = none) : Evolves gs gs1 → Evolves gs (o :: gs1)
+      (ht : o.isTentative = false) (hnew : findFunc gs1 f = none) : Evolves gs gs1 → Evolves gs (o :: gs1)
 
 theorem Evolves.trans {a b c : List Obj} (h1 : Evolves a b) (h2 : Evolves b c) : Evolves a c := by
   induction h2 with
   | refl => exact h1
   | upd p u hu _ ih => exact Evolves.upd p u hu ih
   | consData o hf hl _ ih => exact Evolves.consData o hf hl ih
-  | consFn o f hf hs hl hnew _ ih => exact Evolves.consFn o f hf hs hl hnew ih
+  | consFn o f hf hs hl ht hnew _ ih => exact Evolves.consFn o f hf hs hl ht hnew ih
 
 theorem WF.evolves {gs gs' : List Obj} (h : Evolves gs gs') (w : WF gs) : WF gs' := by
   induction h with
   | refl => exact w
-  | upd p u hu _ ih => exact ⟨by rw [fnNamesOf_updFirst hu]; exact ih.nodup, noneLive_updFirst hu p ih.noneLive⟩
+  | upd p u hu _ ih =>
+    exact ⟨by rw [fnNamesOf_updFirst hu]; exact ih.nodup, noneLive_updFirst hu p ih.noneLive, fnNotTent_updFirst hu p ih.fnNotTent⟩
   | @consData gs1 o hf hl _ ih =>
-    refine ⟨?_, ?_⟩
+    refine ⟨?_, ?_, ?_⟩
     · have : fnNamesOf (o :: gs1) = fnNamesOf gs1 := by simp [fnNamesOf, fnName, hf]
       rw [this]; exact ih.nodup
     · intro x hx
       rcases List.mem_cons.mp hx with rfl | hx
       · exact hl
       · exact ih.noneLive x hx
-  | @consFn gs1 o f hf hs hl hnew _ ih =>
-    refine ⟨?_, ?_⟩
+    · intro x hx hfx
+      rcases List.mem_cons.mp hx with rfl | hx
+      · rw [hf] at hfx; cases hfx
+      · exact ih.fnNotTent x hx hfx
+  | @consFn gs1 o f hf hs hl ht hnew _ ih =>
+    refine ⟨?_, ?_, ?_⟩
     · have : fnNamesOf (o :: gs1) = f :: fnNamesOf gs1 := by simp [fnNamesOf, fnName, hf, hs]
       rw [this]
       exact List.nodup_cons.mpr ⟨findFunc_none_iff.mp hnew, ih.nodup⟩
@@ -142,8 +159,13 @@ theorem WF.evolves {gs gs' : List Obj} (h : Evolves gs gs') (w : WF gs) : WF gs'
       rcases List.mem_cons.mp hx with rfl | hx
       · exact hl
       · exact ih.noneLive x hx
+    · intro x hx hfx
+      rcases List.mem_cons.mp hx with rfl | hx
+      · exact ht
+      · exact ih.fnNotTent x hx hfx
 
-theorem wf_nil : WF [] := ⟨List.nodup_nil, fun _ h => by cases h⟩
+theorem wf_nil : WF [] :=
+  ⟨List.nodup_nil, fun _ h => absurd h List.not_mem_nil, fun _ h => absurd h List.not_mem_nil⟩
 
 /-! ### every parser step evolves the state -/
 
@@ -161,9 +183,9 @@ theorem evolves_recordFnRef {cur : Option Name} {st st' : PState} {g : Name} (h 
   · cases h
   · split at h
     · cases h
-      exact evolves_updFunc _ (fun _ => ⟨rfl, rfl, rfl⟩)
+      exact evolves_updFunc _ (fun _ => ⟨rfl, rfl, rfl, rfl⟩)
     · cases h
-      exact evolves_updFunc _ (fun _ => ⟨rfl, rfl, rfl⟩)
+      exact evolves_updFunc _ (fun _ => ⟨rfl, rfl, rfl, rfl⟩)
 
 theorem evolves_useRef {cur : Option Name} {st st' : PState} {r : Ref} {s : Sym} (h : useRef cur st r = .ok (st', s)) :
     Evolves st.globals st'.globals := by
@@ -215,7 +237,7 @@ theorem evolves_initItems {cur : Option Name} : ∀ (items : List InitItem) {st 
         rw [← h.1]
         exact (evolves_newAnon st (strTy n) true []).trans (ih (by simpa using h2))
 
-theorem keeps_setUses (uses : List Sym) : Keeps (fun o => { o with uses := uses }) := fun _ => ⟨rfl, rfl, rfl⟩
+theorem keeps_setUses (uses : List Sym) : Keeps (fun o => { o with uses := uses }) := fun _ => ⟨rfl, rfl, rfl, rfl⟩
 
 theorem evolves_bodyItem {f : Name} {st st' : PState} {b : BodyItem} {us : List Sym}
     (h : bodyItem f st b = .ok (st', us)) : Evolves st.globals st'.globals := by
@@ -233,7 +255,7 @@ theorem evolves_bodyItem {f : Name} {st st' : PState} {b : BodyItem} {us : List 
         ({ (newAnon st ty init.isSome).1 with
             globals := updFirst (fun o => o.sym == (newAnon st ty init.isSome).2) (fun o => { o with isTls := tls })
               (newAnon st ty init.isSome).1.globals } : PState).globals :=
-      Evolves.upd _ _ (fun _ => ⟨rfl, rfl, rfl⟩) (evolves_newAnon st ty init.isSome [])
+      Evolves.upd _ _ (fun _ => ⟨rfl, rfl, rfl, rfl⟩) (evolves_newAnon st ty init.isSome [])
     cases init with
     | none =>
       simp only [bodyItem, pure, Except.pure, Except.ok.injEq, Prod.mk.injEq] at h
@@ -281,7 +303,7 @@ theorem evolves_bodyItems {f : Name} : ∀ (items : List BodyItem) {st st' : PSt
 theorem keeps_rootIf : Keeps (fun o : Obj => if !(o.isStatic && o.isInline) then { o with isRoot := true } else o) := by
   intro o
   dsimp only
-  split <;> exact ⟨rfl, rfl, rfl⟩
+  split <;> exact ⟨rfl, rfl, rfl, rfl⟩
 
 theorem evolves_declFunctionHead {st st' : PState} {f : Name} {s e i b : Bool}
     (h : declFunctionHead st f s e i b = .ok st') : Evolves st.globals st'.globals := by
@@ -292,10 +314,10 @@ theorem evolves_declFunctionHead {st st' : PState} {f : Name} {s e i b : Bool}
     · split at h
       · cases h
       · cases h
-        exact Evolves.upd _ _ keeps_rootIf (evolves_updFunc _ (fun _ => ⟨rfl, rfl, rfl⟩))
+        exact Evolves.upd _ _ keeps_rootIf (evolves_updFunc _ (fun _ => ⟨rfl, rfl, rfl, rfl⟩))
   · rename_i hfn
     cases h
-    exact Evolves.upd _ _ keeps_rootIf (Evolves.consFn _ f rfl rfl rfl hfn Evolves.refl)
+    exact Evolves.upd _ _ keeps_rootIf (Evolves.consFn _ f rfl rfl rfl rfl hfn Evolves.refl)
 
 theorem evolves_declFunction {st st' : PState} {f n : Name} {s e i : Bool} {body : Option (List BodyItem)}
     (h : declFunction st f n s e i body = .ok st') : Evolves st.globals st'.globals := by
